@@ -369,6 +369,73 @@ def generate():
     handoff(the_function(docs, "startRead"), "startRead")
     handoff(the_function(docs, "stopRead"), "stopRead")
 
+    # A functor that "holds a weak reference" (above: judged at the bind site) behaves like one only if the trampoline
+    # that runs it LOCKS the weak pointer, TESTS the result and only then calls - with the locked pointer.  The two
+    # trampolines: the free functions notifyWriteComplete / notifyHighWaterMark of TcpConnection.cc, and
+    # muduo::WeakCallback::operator() (makeWeakCallback: send from another thread, shutdown, start/stopRead, the
+    # deferred half-close, the delayed forced close).  Statement order of the same functions: vlib/gen/connskel.py.
+    def locks_then_calls(fn, what):
+        """body == { shared_ptr p(<weak>.lock()); if (p) { <callable>(p | p.get(), ...); } } and nothing else"""
+        body = body_of(fn)
+        st = [k for k in kids(body) if k.get("kind") != "NullStmt"] if body else []
+        if len(st) != 2 or st[0].get("kind") != "DeclStmt" or st[1].get("kind") != "IfStmt":
+            return False
+        vds = [k for k in kids(st[0]) if k.get("kind") == "VarDecl"]
+        if len(vds) != 1 or not kids(vds[0]):
+            return False
+        v = vds[0]
+        locks = [x for x in walk(v) if x.get("kind") == "CXXMemberCallExpr" and kids(x)
+                 and strip(kids(x)[0]).get("kind") == "MemberExpr" and strip(kids(x)[0]).get("name") == "lock"]
+        if len(locks) != 1 or "weak_ptr" not in kids(strip(kids(locks[0])[0]))[0].get("type", {}).get("qualType", ""):
+            return False
+        ik = kids(st[1])
+        if len(ik) != 2 or st[1].get("hasInit") or st[1].get("hasVar"):
+            return False            # an `else` branch, or a different kind of `if`
+        refs = [x for x in walk(ik[0]) if x.get("kind") == "DeclRefExpr"]
+        calls_in_cond = [x for x in walk(ik[0]) if x.get("kind") in ("CallExpr", "CXXOperatorCallExpr")]
+        ops_in_cond = [x for x in walk(ik[0]) if x.get("kind") in ("UnaryOperator", "BinaryOperator")]
+        if len(refs) != 1 or refs[0].get("referencedDecl", {}).get("id") != v.get("id") or calls_in_cond or ops_in_cond:
+            return False            # the test is not `if (p)`
+        then = ik[1]
+        ts = [k for k in kids(then) if k.get("kind") != "NullStmt"] if then.get("kind") == "CompoundStmt" else [then]
+        if len(ts) != 1:
+            return False
+        call = strip(ts[0])
+        if call.get("kind") != "CXXOperatorCallExpr" or len(kids(call)) < 3:
+            return False
+        op = [x for x in walk(kids(call)[0]) if x.get("kind") == "DeclRefExpr"]
+        if not op or op[0].get("referencedDecl", {}).get("name") != "operator()":
+            return False
+        first = kids(call)[2]
+        fr = [x for x in walk(first) if x.get("kind") == "DeclRefExpr" and x.get("referencedDecl", {}).get("kind") in ("VarDecl", "ParmVarDecl")]
+        if len(fr) != 1 or fr[0].get("referencedDecl", {}).get("id") != v.get("id"):
+            return False            # the object handed to the callable is not the locked pointer
+        fc = [x for x in walk(first) if x.get("kind") in ("CXXMemberCallExpr",) and strip(kids(x)[0]).get("name") not in ("get",)]
+        return not fc
+
+    ndocs = [ast_dump("muduo/net/TcpConnection.cc", nm) for nm in ("notifyWriteComplete", "notifyHighWaterMark")]
+    nfns = []
+    for nm, nd in zip(("notifyWriteComplete", "notifyHighWaterMark"), ndocs):
+        fs = [f for f in functions(nd, nm) if f.get("kind") == "FunctionDecl"]
+        if len(fs) != 1:
+            raise ExtractError("expected exactly one definition of %s, found %d" % (nm, len(fs)))
+        nfns.append(fs[0])
+    nl = all(locks_then_calls(f, f["name"]) for f in nfns)
+    out.append("/-- `notifyWriteComplete`, `notifyHighWaterMark` (the functions the write-complete / high-water functors run):\n"
+               "`TcpConnectionPtr conn(weak.lock()); if (conn) cb(conn[, len]);` - lock, test, call with the locked pointer, and\n"
+               "nothing else.  `false`: a functor that was bound with a weak pointer is treated as one that holds the raw object -/\n"
+               "def notifyLocks : Bool := %s\n" % ("true" if nl else "false"))
+    wdocs = ast_dump("muduo/net/TcpConnection.cc", "muduo::WeakCallback")
+    insts = [m for d in wdocs for sp in walk(d) if sp.get("kind") == "ClassTemplateSpecializationDecl" and sp.get("name") == "WeakCallback"
+             for m in kids(sp) if m.get("kind") == "CXXMethodDecl" and m.get("name") == "operator()" and body_of(m) is not None]
+    if not insts:
+        raise ExtractError("WeakCallback::operator(): no instantiation found in TcpConnection.cc")
+    wl = all(locks_then_calls(m, "WeakCallback::operator()") for m in insts)
+    out.append("/-- `WeakCallback::operator()` (muduo/base/WeakCallback.h, %d instantiation%s in TcpConnection.cc: what\n"
+               "`makeWeakCallback(shared_from_this(), &TcpConnection::f)` runs): `std::shared_ptr<CLASS> ptr(object_.lock());\n"
+               "if (ptr) function_(ptr.get(), args...);` - lock, test, call on the locked object, and nothing else -/\n"
+               "def weakCallbackLocks : Bool := %s\n" % (len(insts), "" if len(insts) == 1 else "s", "true" if wl else "false"))
+
     # assertions that matter for the life-cycle (handleClose / connectEstablished / dtor)
     hc = the_function(docs, "handleClose")
     asserts = [n for n in walk(body_of(hc)) if n.get("kind") == "StringLiteral" and "state_" in n.get("value", "")]
